@@ -84,3 +84,47 @@ Proof.
     + unfold is_err in E2. apply negb_false_iff, Z.eqb_eq in E2.
       destruct (x_closed x); [discriminate|]. destruct (x_ctx x); [discriminate|]. auto.
 Qed.
+
+(* ---- token-level machine: bounded read-ahead after cancellation ---- *)
+Definition xtac_inv (x : xts) : Prop :=
+  (xt_ctx x = false -> xt_tac x = 0) /\ xt_tac x <= 1 /\ (xt_pc x = XRead -> xt_tac x = 0).
+
+Ltac fin_x Ep := cbn; repeat split; auto; try lia; try (intros E; discriminate E); try (rewrite Ep; intros E; discriminate E).
+
+Lemma xtac_step : forall l x x' o, xtac_inv x -> xtstep false l x = Some (x', o) -> xtac_inv x'.
+Proof.
+  intros l x x' o (H1 & H2 & H3) H. unfold xtac_inv.
+  destruct l as [a| |]; cbn in H.
+  - destruct (xt_pc x) eqn:Ep; try discriminate H. destruct a; try discriminate H; cbn in H.
+    + destruct (is_err (xt_err x)); injection H as <- <-; fin_x Ep.
+    + injection H as <- <-. fin_x Ep.
+    + injection H as <- <-. fin_x Ep.
+    + injection H as <- <-. fin_x Ep.
+  - destruct (xt_pc x) eqn:Ep; try discriminate H.
+    + destruct (xt_ctx x) eqn:Ec; injection H as <- <-; fin_x Ep.
+    + specialize (H3 eq_refl).
+      destruct (xt_toks x) as [|[v|] r]; injection H as <- <-; cbn; rewrite H3;
+        destruct (xt_ctx x); fin_x Ep.
+  - injection H as <- <-. cbn. repeat split; auto. intros E; discriminate E.
+Qed.
+
+(* at most one further token is read after the context is cancelled, however the cancellation
+   interleaves with the Scan loop *)
+Lemma xml_bounded_read_ahead : forall sched toks, xt_tac (fst (xtrun false sched (xtinit toks))) <= 1.
+Proof.
+  intros sched toks.
+  assert (forall sched x, xtac_inv x -> xtac_inv (fst (xtrun false sched x))) as Hrun.
+  { induction sched0 as [|l r IH]; intros x Hx; [exact Hx|]. cbn.
+    destruct (xtstep false l x) as [[x' o]|] eqn:E.
+    - specialize (IH x' (xtac_step l x x' o Hx E)). destruct (xtrun false r x'). exact IH.
+    - apply IH. exact Hx. }
+  apply (Hrun sched (xtinit toks)). unfold xtac_inv, xtinit. cbn. repeat split; auto; intros E; discriminate E.
+Qed.
+
+(* the once-per-call variant reads on to the next object or the end of input *)
+Definition xt_witness_sched : list xlabel := [XLCall CScan; XLStep; XLCancel3; XLStep; XLStep; XLStep; XLStep; XLStep; XLCall CErr].
+Definition xt_witness_toks : list xtok := [XSkip; XSkip; XSkip; XSkip; XSkip].
+Lemma xml_bounded_read_ahead_percall_refuted :
+  xt_tac (fst (xtrun true xt_witness_sched (xtinit xt_witness_toks))) = 5 /\
+  snd (xtrun true xt_witness_sched (xtinit xt_witness_toks)) = [OScan false 0%Z; OErr 0%Z].
+Proof. vm_compute. split; reflexivity. Qed.
